@@ -100,6 +100,9 @@ def catalogue():
                    ("WassersteinSinkhornLOT", lambda: V.WassersteinVectorizer(n_components=4, random_state=1, method="LOT_sinkhorn", sinkhorn_chunk_size=2)),
                    ("WassersteinHeuristic", lambda: V.WassersteinVectorizer(n_components=4, random_state=1, method="HeuristicLinearAlgebra")),
                    ("Sinkhorn", lambda: V.SinkhornVectorizer(n_components=4, random_state=1, chunk_size=2)),
+                   ("SinkhornBlocks", lambda: V.SinkhornVectorizer(n_components=4, random_state=1, chunk_size=2, memory_size="300")),
+                   ("WassersteinBlocks", lambda: V.WassersteinVectorizer(n_components=4, random_state=1, metric="euclidean", memory_size="300")),
+                   ("WassersteinSinkhornBlocks", lambda: V.WassersteinVectorizer(n_components=4, random_state=1, method="LOT_sinkhorn", sinkhorn_chunk_size=2, memory_size="300")),
                    ("ApproxWasserstein", lambda: V.ApproximateWassersteinVectorizer(n_components=3, random_state=1))):
         E.append(Entry(nm, mk, Xw, [("unseen", Xw_new), ("train", Xw)], width=lambda e: (e.components_.shape[0] if hasattr(e, "components_") else None),
                        fit_kw=dict(vectors=Vw), exact=False))
